@@ -105,6 +105,16 @@ def main(tier, seed):
                               prefilter=lambda t: "stack = <<>>" in t and "defects = 1" in t):
         progs.append(st)
     ck.add_tlc("FortranScopes_GenDefect", info["result"])
+    for cfg, flt in (("FortranScopes_GenTypes.cfg", '"typedvar"'), ("FortranScopes_GenProcs.cfg", '"procptr"')):
+        info = {}
+        k = 0
+        for st in tlc.dump_states("FortranScopes", cfg, info=info, timeout=3000,
+                                  prefilter=lambda t, flt=flt: "stack = <<>>" in t and flt in t):
+            st["_focus"] = True
+            progs.append(st)
+            k += 1
+        ck.add_tlc(cfg, info["result"])
+        ck.note("focus_programs_" + cfg, k)
     nsim = 400 if tier == "quick" else 4000
     for cfg, sd in (("FortranScopes_Sim.cfg", 21), ("FortranScopes_SimDefect.cfg", 22), ("FortranScopes_SimDefect.cfg", 23)):
         for beh in tlc.simulate("FortranScopes", cfg, num=nsim, depth=27, seed=seed + sd, workers=8, timeout=1500):
@@ -113,11 +123,12 @@ def main(tier, seed):
                 progs.append(st)
     if tier == "quick" and len(progs) > 9000:
         # keep every defect class represented: sample valid ones only
-        valid = [p for p in progs if not p["expDiag"]]
-        defect = [p for p in progs if p["expDiag"]]
+        focus = [p for p in progs if p.get("_focus")]
+        valid = [p for p in progs if not p["expDiag"] and not p.get("_focus")]
+        defect = [p for p in progs if p["expDiag"] and not p.get("_focus")]
         rnd.shuffle(valid)
         rnd.shuffle(defect)
-        progs = valid[:3500] + defect[:5500]
+        progs = valid[:3000] + defect[:4500] + focus
     per_class = {}
     for p in progs:
         for e in p["expDiag"]:
